@@ -377,21 +377,21 @@ def command_case(ctx, case) -> None:
 
 def run(ctx) -> None:
     rng = ctx.rng
-    cmds = ["solve:greedy", "solve:random", "solve:largest", "solve:greedy_worst", "greedy", "ugreedy", "best_states"]
+    cmds = ["best_states", "solve:greedy", "solve:random", "greedy", "solve:largest", "best_states", "ugreedy", "solve:greedy_worst"]
     i = 0
     t_cmd = 0.0
     while not ctx.out_of_time(6.0):
         i += 1
         if i % 6 == 0 and t_cmd < ctx.budget_s * 0.5:
             t0 = ctx.elapsed()
-            c = cmds[(i // 6 + ctx.shard) % len(cmds)]
+            c = cmds[(i // 6 - 1 + 2 * ctx.shard) % len(cmds)]
             n = rng.choice([3, 3, 4])
             nexp = (1 << n) - n - 2
             lim = rng.randint(1, min(nexp, 3))
             sub = {"solve": lambda s: ["solve", "--solver", s, "--solve-repetitions", str(rng.randint(1, 4))],
                    "greedy": lambda s: ["greedy", "--sampling-repetitions", str(rng.randint(1, 3))],
                    "ugreedy": lambda s: ["ugreedy", "--sampling-repetitions", str(rng.randint(1, 3))],
-                   "best_states": lambda s: ["best_states", "--sampling-repetitions", str(rng.randint(1, 2)), "--eval-repetitions", str(rng.randint(1, 2))]}
+                   "best_states": lambda s: ["best_states", "--sampling-repetitions", str(rng.choice([1, 2, 2])), "--eval-repetitions", str(rng.choice([1, 2, 2]))]}
             cmd, _, solver = c.partition(":")
             command_case(ctx, {"command": cmd, "n": n, "generator": rng.choice(["factory", "noisy_factory", "graph_cycle", "xos", "factory_cheerleader_next"]),
                                "computer": rng.choice(["superadditive", "superadditive_cached"]), "gap": rng.choice(["exploitability", "l1_norm", "l2_norm", "linf_norm"]),
